@@ -571,7 +571,11 @@ let handle_use fields =
       let m = String.concat "," (L.map udiag_name model) in
       if is_prefix "SKIP" orc then incr skipped
       else begin
-        if m <> impl then mismatch "use" (input ^ " ;; " ^ orc) impl m;
+        if m <> impl then begin
+          mismatch "use" (input ^ " ;; " ^ orc) impl m;
+          (* the model's list is exactly the rules broken (theorem C13): the implementation's list is wrong on this input *)
+          oracle_fail "use" (input ^ " ;; " ^ orc) ("FAIL C13: usage diagnostics [" ^ impl ^ "] but the rules broken at these sites are [" ^ m ^ "]")
+        end;
         if is_prefix "FAIL" orc then oracle_fail "use" input orc
       end
     end
@@ -625,7 +629,11 @@ let handle_scope fields =
            | Scoping.EUnres -> add ev_s "U"; add dg_s (if c = 'g' then "G" else "V")))
         evs tags;
       let m = Buffer.contents ev_s ^ "|" ^ Buffer.contents dg_s in
-      if m <> impl then mismatch "scope" (input ^ " ;; " ^ orc) impl m;
+      if m <> impl then begin
+        mismatch "scope" (input ^ " ;; " ^ orc) impl m;
+        (* the model's events are those of lexical scoping (theorem C07) *)
+        oracle_fail "scope" (input ^ " ;; " ^ orc) ("FAIL C07: resolution events/diagnostics [" ^ impl ^ "] differ from lexical scoping [" ^ m ^ "]")
+      end;
       if int_of_n (Scoping.open_scopes (Scoping.compile_all its)) <> 1 then mismatch "scope" input "-" "model leaves scopes open";
       if is_prefix "FAIL" orc then oracle_fail "scope" input orc
     end
@@ -755,7 +763,11 @@ let handle_graph fields =
       let (Graph.GN (_, stmts)) = s and (Graph.GN (_, outs)) = o in
       count_case input (L.length stmts > 1); sample "graph" input impl;
       let m = Graph.translate stmts in
-      if m <> outs then mismatch "graph" (first_diff outs m ^ " ;; " ^ orc) "-" "-";
+      if m <> outs then begin
+        mismatch "graph" (first_diff outs m ^ " ;; " ^ orc) "-" "-";
+        (* the model's graph is the structure-preserving translation of the program (theorems C06) *)
+        oracle_fail "graph" (first_diff outs m ^ " ;; " ^ orc) "FAIL C06: the graph differs from the structure-preserving translation of the program"
+      end;
       (* property: outside the known class the theorems of C06 apply to the model's output *)
       let known_ann = Graph.k_annotation_in_block stmts in
       if is_prefix "KNOWN C06.annotation_inside_block" orc <> known_ann then
@@ -897,7 +909,10 @@ let handle_inc fields =
       let impl_n = match split_on '|' impl with
         | [a; b] -> a ^ "|" ^ String.concat " " (L.sort compare (words b))
         | _ -> impl in
-      if m <> impl_n then mismatch "inc" (input ^ " ;; " ^ orc) impl_n m;
+      if m <> impl_n then begin
+        mismatch "inc" (input ^ " ;; " ^ orc) impl_n m;
+        oracle_fail "inc" (input ^ " ;; " ^ orc) ("FAIL C18: included files / unreadable includes [" ^ impl_n ^ "] differ from the ordered path search [" ^ m ^ "]")
+      end;
       relay_oracle "inc" input orc
     end
   | _ -> raise (Parse "bad inc line")
